@@ -277,6 +277,13 @@ class World:
         if self.monitors:
             _exec_script(conn, MONITOR_DDL)
         conn.commit()
+        # the ':memory:' database is per thread and shared by every World of the process: whatever an earlier job left
+        # behind must not become part of the pristine image
+        for (t,) in conn.execute("SELECT name FROM sqlite_master WHERE type='table' AND name NOT LIKE 'sqlite_%'").fetchall():
+            conn.execute(f'DELETE FROM "{t}"')
+        conn.execute("DELETE FROM sqlite_sequence") if conn.execute(
+            "SELECT 1 FROM sqlite_master WHERE name='sqlite_sequence'").fetchone() else None
+        conn.commit()
         self.pristine = conn.serialize()
 
     def image(self):
